@@ -33,6 +33,7 @@ type caseDef struct {
 	Depth  int       `json:"depth,omitempty"`  // part 2: word length
 	Engine string    `json:"engine,omitempty"` // part 3
 	BCfg   *bcfg     `json:"bcfg,omitempty"`   // part 4
+	P9a    *p9aCase  `json:"p9a,omitempty"`    // part 9a
 	RShard *p1bShard `json:"rshard,omitempty"` // part 6 (= part 1b: import matching against re-exports)
 }
 
@@ -66,6 +67,13 @@ func buildCases(tier string, u *universe) (cs []caseDef) {
 	}
 	for _, en := range engineNames {
 		cs = append(cs, caseDef{Part: 7, Engine: en})
+	}
+	for _, c := range p9aCases() {
+		c := c
+		cs = append(cs, caseDef{Part: 9, P9a: &c})
+	}
+	for a := range p9Alphabet() {
+		cs = append(cs, caseDef{Part: 9, Prefix: []int{a}, Depth: 3})
 	}
 	for a := range p8Alphabet() {
 		cs = append(cs, caseDef{Part: 8, Prefix: []int{a}, Depth: 3})
@@ -146,6 +154,7 @@ type childState struct {
 	p4        *p4Env
 	p5        *p5Env
 	p8        *p8Env
+	p9        *p9Env
 	ops       map[string][]opDef
 	confirmed map[string]bool
 }
@@ -207,6 +216,62 @@ func (cs *childState) runCase(cd caseDef) caseResult {
 			b, _ := json.Marshal(v)
 			res.Viols = append(res.Viols, b)
 		}
+	case 9:
+		if cd.P9a != nil {
+			outcome, v := runP9a(*cd.P9a)
+			res.Evals = 1
+			res.Outcomes["p9:failed-instantiation("+cd.P9a.Fail+"):"+outcome]++
+			if v != nil {
+				b, _ := json.Marshal(v)
+				res.Viols = append(res.Viols, b)
+			}
+			break
+		}
+		if cs.p9 == nil {
+			cs.p9 = newP9Env()
+		}
+		alpha9 := p9Alphabet()
+		st9 := newP2Stats()
+		word9 := make([]int, cd.Depth)
+		copy(word9, cd.Prefix)
+		var rec9 func(pos int)
+		rec9 = func(pos int) {
+			if pos == cd.Depth {
+				for _, v := range cs.p9.runWord9(alpha9, word9, st9, nil) {
+					key := "9|" + v.Engine + "|" + v.Sig
+					if !cs.confirmed[key] {
+						fresh := newP9Env()
+						again := fresh.runWord9(alpha9, word9, newP2Stats(), nil)
+						fresh.close()
+						found := false
+						for _, a := range again {
+							if a.Sig == v.Sig && a.Engine == v.Engine {
+								found = true
+							}
+						}
+						if !found {
+							res.Flaky = append(res.Flaky, fmt.Sprintf("part9 %s: %s not reproduced in a fresh runtime", v.Sig, v.What))
+							continue
+						}
+						cs.confirmed[key] = true
+					}
+					b, _ := json.Marshal(v)
+					res.Viols = append(res.Viols, b)
+				}
+				return
+			}
+			for k := range alpha9 {
+				word9[pos] = k
+				rec9(pos + 1)
+			}
+		}
+		rec9(len(cd.Prefix))
+		res.Evals = st9.Words * int64(len(engineNames))
+		res.Steps, res.Reads, res.EngCmp = st9.Steps, st9.Reads, st9.EngineCompares
+		for k, v := range st9.Outcomes {
+			res.Outcomes[k] = v
+		}
+		res.States, res.Trans = setKeys(st9.States), setKeys(st9.Trans)
 	case 8:
 		if cs.p8 == nil {
 			cs.p8 = newP8Env()
@@ -538,6 +603,37 @@ func doReplay(file string) {
 			fmt.Printf("  STILL FAILS: %s: %s\n", v.Sig, v.What)
 			failed = true
 		}
+	case 9:
+		var r struct {
+			Word []string `json:"word"`
+		}
+		json.Unmarshal(doc.Replay, &r)
+		if len(r.Word) == 0 { // family (a): re-run the whole matrix
+			for _, c := range p9aCases() {
+				outcome, v := runP9a(c)
+				fmt.Printf("[%s] %s / %s: %s\n", c.Engine, c.Fail, c.Fn, outcome)
+				if v != nil {
+					fmt.Printf("  STILL FAILS: %s: %s\n", v.Sig, v.What)
+					failed = true
+				}
+			}
+			break
+		}
+		alpha9 := p9Alphabet()
+		var word9 []int
+		for _, n := range r.Word {
+			for i := range alpha9 {
+				if alpha9[i].Fn == n {
+					word9 = append(word9, i)
+				}
+			}
+		}
+		e9 := newP9Env()
+		for _, v := range e9.runWord9(alpha9, word9, newP2Stats(), func(s string) { fmt.Println(s) }) {
+			fmt.Printf("  STILL FAILS: %s: %s\n", v.Sig, v.What)
+			failed = true
+		}
+		e9.close()
 	case 8:
 		var r p8Viol
 		json.Unmarshal(doc.Replay, &r)
@@ -704,7 +800,7 @@ func main() {
 	outcomes := fw.NewCounter()
 	samples := fw.NewSampler(16)
 	states, trans, pairs := map[uint64]struct{}{}, map[uint64]struct{}{}, map[uint64]struct{}{}
-	var p1Evals, p2Evals, p4Evals, p4Steps, p5Evals, p5Steps, p8Evals, steps, na, reads, engcmp, crashes int64
+	var p1Evals, p2Evals, p4Evals, p4Steps, p5Evals, p5Steps, p8Evals, p9Evals, steps, na, reads, engcmp, crashes int64
 	var flaky []string
 	stopped := false
 	var retry []int
@@ -724,6 +820,8 @@ func main() {
 			p5Steps += r.Steps
 		case 8:
 			p8Evals += r.Evals
+		case 9:
+			p9Evals += r.Evals
 		default:
 			p1Evals += r.Evals
 		}
@@ -785,6 +883,12 @@ func main() {
 					ops := buildOps(*cd.Cfg)
 					desc = fmt.Sprintf("words of %s starting with %s %s", cd.Cfg, ops[cd.Prefix[0]].Name, ops[cd.Prefix[1]].Name)
 					sig = "crash:p2:" + ops[cd.Prefix[0]].Name + ":" + ops[cd.Prefix[1]].Name
+				}
+				if cd.Part == 9 && cd.P9a != nil {
+					desc = fmt.Sprintf("part 9a: call into a function of a module whose instantiation failed (%s), function reads %s, %s", cd.P9a.Fail, cd.P9a.Fn, cd.P9a.Engine)
+					sig = "crash:p9:failed-instantiation(" + cd.P9a.Fail + "):function-reads-" + cd.P9a.Fn
+				} else if cd.Part == 9 {
+					desc, sig = "part 9b (aliased imports)", "crash:p9:alias"
 				}
 				if cd.Part == 8 {
 					desc = fmt.Sprintf("part 8 words starting with %s", p8Alphabet()[cd.Prefix[0]])
@@ -886,7 +990,7 @@ func main() {
 	}
 	om := outcomes.Map()
 	run.Finish(fw.Coverage{
-		Evaluations:     p1Evals + p2Evals + p4Evals + p5Evals + p8Evals,
+		Evaluations:     p1Evals + p2Evals + p4Evals + p5Evals + p8Evals + p9Evals,
 		DistinctNontriv: int64(len(pairs)) + int64(len(trans)),
 		States:          int64(len(states)), Transitions: steps, TracesValidated: steps,
 		Rule: "part 1: distinct (current external type of the export, declared import type) pairs, each instantiated on both engines; " +
@@ -895,7 +999,7 @@ func main() {
 		Samples: samples.List(), Exhaustive: true, Outcomes: om, Bounds: bounds,
 		Extra: map[string]any{
 			"part1_instantiations": p1Evals, "part1b_layouts": p1bLayoutNames, "part1_distinct_type_pairs": len(pairs),
-			"part2_word_executions": p2Evals, "part4_word_executions": p4Evals, "part4_steps": p4Steps, "part5_word_executions": p5Evals, "part5_steps": p5Steps, "part8_word_executions": p8Evals, "parts245_distinct_state_op_pairs": len(trans), "parts245_not_applicable_steps": na,
+			"part2_word_executions": p2Evals, "part4_word_executions": p4Evals, "part4_steps": p4Steps, "part5_word_executions": p5Evals, "part5_steps": p5Steps, "part8_word_executions": p8Evals, "part9_evaluations": p9Evals, "parts245_distinct_state_op_pairs": len(trans), "parts245_not_applicable_steps": na,
 			"parts245_reads_compared_with_model": reads, "parts245_engine_lockstep_comparisons": engcmp, "child_crashes": crashes, "watchdog_reruns": len(retry),
 			"cases": len(cases), "cases_completed": done,
 		},
